@@ -141,6 +141,45 @@ def run(chk):
                         break
             if ci % 400 == 0:
                 chk.sample(dict(config={k: c[k] for k in ('present', 'colname', 'load', 'lp', 'lv')}, expected=c['out']))
+    # ---- files without particles (an empty light-cone slab): the table still has exactly the requested columns, with no rows
+    empty = dict(rvint=np.zeros((0, 3), dtype=np.int32), pack9=np.zeros((0, 9), dtype=np.uint8), packedpid=np.zeros(0, dtype=np.uint64), pid=np.zeros(0, dtype=np.uint64))
+    nempty = 0
+    with warnings.catch_warnings():
+        warnings.simplefilter('ignore')
+        for col, arr in empty.items():
+            for hk in ('snapshot', 'lightcone'):
+                fn = os.path.join(chk.scratch, f'empty_{col}_{hk}.asdf')
+                asdf.AsdfFile({'header': dict(headers[hk]), 'data': {col: arr}}).write_to(fn)
+                for ci, c in enumerate(cases):
+                    if c['present'] != [col] or c['out']['error'] or (chk.quick and ci % 3):
+                        continue
+                    kw = {}
+                    if c['load'] != ['<none>']:
+                        kw['load'] = tuple(c['load'])
+                    if c['colname'] != 'none':
+                        kw['colname'] = c['colname']
+                    if c['lp'] != 'unset':
+                        kw['load_pos'] = c['lp'] == 'T'
+                    if c['lv'] != 'unset':
+                        kw['load_vel'] = c['lv'] == 'T'
+                    dt = [np.float32, np.float64][ci % 2]
+                    desc = f'EMPTY file present=[{col}] colname={c["colname"]} load={c["load"]} load_pos={c["lp"]} load_vel={c["lv"]} header={hk}'
+                    try:
+                        t = read_asdf(fn, dtype=dt, verbose=False, **kw)
+                    except Exception as e:  # noqa
+                        chk.violation(f'empty-raises-{col}', f'{desc}: raised {type(e).__name__}: {e}', dict(cfg=c, header=hk))
+                        continue
+                    nempty += 1
+                    ok_sets = [sorted(s_) for s_ in c['out']['cols']]
+                    if sorted(t.colnames) not in ok_sets or len(t) != 0:
+                        chk.violation(f'empty-columns-{col}', f'{desc}: table columns {sorted(t.colnames)} with {len(t)} rows; expected {ok_sets} with 0 rows', dict(cfg=c, header=hk))
+                        continue
+                    for cn in t.colnames:
+                        a = np.asarray(t[cn])
+                        if cn in ('pos', 'vel', 'lagr_pos') and (a.shape != (0, 3) or a.dtype != dt):
+                            chk.violation(f'empty-shape-{col}', f'{desc}: column {cn} has shape {a.shape} dtype {a.dtype}; expected (0, 3) {np.dtype(dt).name}', dict(cfg=c, header=hk))
+    chk.part('empty_files', reads=nempty)
+    nrun += nempty
     chk.part('spec_to_code', reads=nrun, files=len([k for k in files if len(k) == 2 and isinstance(k[1], str)]))
     chk.add_cases(nrun, nontrivial=nontriv, traces=nrun)
 
